@@ -188,6 +188,30 @@ class Graph:
     def reachable_edges(self) -> List[int]:
         return [i for i, e in enumerate(self.edges) if e["_s"] in self.parent]
 
+    def merge_pairs(self, cap: int = 20000) -> List[Tuple[int, int]]:
+        """(incoming non-tree edge f, following edge e) with dst(f) = src(e).
+
+        The BFS tree reaches every abstract state along ONE path.  Where several histories merge into
+        the same abstract state (or an action leaves it unchanged), an implementation whose hidden
+        state differs between those histories is only observed at the merging edge itself; the edge
+        that would expose the damage is always replayed from the clean tree path.  Replaying
+        path_to(src(f)) + f + e covers every such (history class, next action) pair; self-loops are
+        the special case src(f) = dst(f).  Thinned deterministically to `cap` pairs."""
+        incoming: Dict[str, List[int]] = collections.defaultdict(list)
+        for i in self.reachable_edges():
+            e = self.edges[i]
+            if self.parent.get(e["_d"]) != i:
+                incoming[e["_d"]].append(i)
+        pairs = []
+        for s, fs in incoming.items():
+            for f in fs:
+                for j in self.out.get(s, ()):
+                    pairs.append((f, j))
+        if len(pairs) > cap:
+            stride = len(pairs) / float(cap)
+            pairs = [pairs[int(k * stride)] for k in range(cap)]
+        return pairs
+
     def selfloop_pairs(self) -> List[Tuple[int, int]]:
         """(loop edge, following edge) for every edge that leaves the abstract state unchanged.
 
